@@ -308,7 +308,10 @@ impl Shared {
             let sh = self.clone();
             let jh = thread::Builder::new()
                 .name(format!("sim{}", to))
-                .stack_size(1 << 20)
+                .stack_size(match self.scen.threads[to].stack_kb {
+                    0 => 1 << 20,
+                    kb => (kb as usize).clamp(64, 1 << 20) << 10,
+                })
                 .spawn(move || sim_thread(sh, to))
                 .expect("spawn sim thread");
             st.th[to].handle = Some(jh.thread().clone());
